@@ -130,6 +130,31 @@ def main(argv):
                 "params": ob["params"], "harness_error": None,
             }
 
+    # ---------------------------------------------------------------- cross-engine differential (thorough tier)
+    # a few of the smallest zsym obligations are explored again on CrossHair: both engines must exhaust the same
+    # set of concrete trace signatures (translation validation of the proxy layer against an independent engine)
+    cross = {"obligations": 0, "disagreements": []}
+    ncross = int(getattr(mod, "CROSSCHECK", {}).get(tier, 0)) if isinstance(getattr(mod, "CROSSCHECK", None), dict) else 0
+    if ncross and os.environ.get("VERIF_ENGINE") is None:
+        def _size(ob):
+            s = 1
+            for _, lo, hi in ob["params"]:
+                s *= hi - lo + 1
+            return s
+
+        cand = sorted([ob for ob in obs if ob.get("engine") == "zsym" and results[ob["name"]]["verdict"] == "CONFIRMED" and results[ob["name"]]["paths"] <= 40], key=_size)
+        pick = cand[:: max(1, len(cand) // ncross)][:ncross]
+        pool = ctx.Pool(NPROC, maxtasksperchild=1)
+        try:
+            outs = pool.map(_worker_entry, [dict(ob, engine="crosshair", timeout=900, name=ob["name"] + "@crosshair") for ob in pick], chunksize=1)
+        finally:
+            pool.terminate()
+            pool.join()
+        for ob, r in zip(pick, outs):
+            z = results[ob["name"]]
+            cross["obligations"] += 1
+            if r["verdict"] != z["verdict"] or sorted(r["sigs"]) != sorted(z["sigs"]):
+                cross["disagreements"].append({"obligation": ob["name"], "zsym": [z["verdict"], z["paths"], len(z["sigs"])], "crosshair": [r["verdict"], r["paths"], len(r["sigs"])]})
     t_explore = time.time() - t0
     # ---------------------------------------------------------------- aggregate
     lines = []
@@ -217,6 +242,9 @@ def main(argv):
     for m in mismatched[:5]:
         lines.append("HARNESS-ERROR witness mismatch between engine and real code: %s" % json.dumps(m, default=str)[:600])
         exit_code = 2
+    for dis in cross["disagreements"]:
+        lines.append("HARNESS-ERROR engines disagree: %s" % json.dumps(dis))
+        exit_code = 2
     known_seen = {}
     for r in results.values():
         for tag, m in r["known_seen"].items():
@@ -288,6 +316,7 @@ def main(argv):
                 "zsym": "engine/zsym.py: dynamic symbolic execution of /repo's current Python source by z3-backed proxy numbers (ints: Int, floats: exact Real), DFS to exhaustion; z3 %s" % _z3v(),
                 "crosshair": "CrossHair 0.0.110 symbolic execution of /repo's current Python source, real-arithmetic float model; z3 %s" % _z3v(),
             },
+            "cross_engine_check": cross,
             "engines_used": dict(collections.Counter(r.get("engine", "crosshair") for r in results.values())),
             "cubes": [
                 {"obligation": r["name"], "engine": r.get("engine", "crosshair"), "verdict": r["verdict"], "paths": r["paths"], "queries": r["queries"],
